@@ -1,5 +1,5 @@
 use crate::co_pool::creator::CoroutineCreator;
-use crate::co_pool::task::Task;
+use crate::co_pool::task::{Task, TaskSink};
 use crate::common::beans::BeanFactory;
 use crate::common::constants::PoolState;
 use crate::common::ordered_work_steal::{OrderedLocalQueue, OrderedWorkStealQueue};
@@ -54,11 +54,8 @@ pub struct CoroutinePool<'p> {
     keep_alive_time: AtomicU64,
     //阻滞器
     blocker: Arc<CondvarBlocker>,
-    //正在等待结果的
-    waits: DashMap<u64, Arc<(Mutex<bool>, Condvar)>>,
-    //任务执行结果
-    results: DashMap<u64, Result<Option<usize>, &'p str>>,
-    no_waits: DashSet<u64>,
+    //正在等待结果的 / 任务执行结果, shared with the tasks submitted here
+    sink: TaskSink<'p>,
 }
 
 impl Drop for CoroutinePool<'_> {
@@ -142,9 +139,7 @@ impl<'p> CoroutinePool<'p> {
             .local_queue(),
             keep_alive_time: AtomicU64::new(keep_alive_time),
             blocker: Arc::default(),
-            results: DashMap::new(),
-            waits: DashMap::default(),
-            no_waits: DashSet::default(),
+            sink: TaskSink::default(),
         }
     }
 
@@ -233,9 +228,10 @@ impl<'p> CoroutinePool<'p> {
     fn do_clean(&mut self) {
         // clean up remaining wait tasks
         // collect first: notify() removes from `waits`, which must not happen while iterating it
-        let task_ids: Vec<u64> = self.waits.iter().map(|r| *r.key()).collect();
+        let task_ids: Vec<u64> = self.sink.waits.iter().map(|r| *r.key()).collect();
         for task_id in task_ids {
             _ = self
+                .sink
                 .results
                 .insert(task_id, Err("The coroutine pool has stopped"));
             self.notify(task_id);
@@ -259,12 +255,14 @@ impl<'p> CoroutinePool<'p> {
                 return Err(Error::other("The coroutine pool is stopping or stopped !"))
             }
         }
-        let task = Task::new(
+        let mut task = Task::new(
             name.unwrap_or(format!("{}@{}", self.name(), uuid::Uuid::new_v4())),
             func,
             param,
             priority,
         );
+        // whoever runs the task reports to this pool, the join handle waits here
+        task.set_sink(self.sink.clone());
         let task_id = task.id();
         self.submit_raw_task(task);
         Ok(task_id)
@@ -281,7 +279,7 @@ impl<'p> CoroutinePool<'p> {
 
     /// Attempt to obtain task results with the given `task_id`.
     pub fn try_take_task_result(&self, task_id: u64) -> Option<Result<Option<usize>, &'p str>> {
-        self.results.remove(&task_id).map(|(_, r)| r)
+        self.sink.results.remove(&task_id).map(|(_, r)| r)
     }
 
     /// clean the task result data.
@@ -289,7 +287,7 @@ impl<'p> CoroutinePool<'p> {
         if self.try_take_task_result(task_id).is_some() {
             return;
         }
-        _ = self.no_waits.insert(task_id);
+        _ = self.sink.no_waits.insert(task_id);
         _ = CANCEL_TASKS.remove(&task_id);
     }
 
@@ -321,11 +319,11 @@ impl<'p> CoroutinePool<'p> {
                 }
             }
         }
-        let arc = if let Some(arc) = self.waits.get(&task_id) {
+        let arc = if let Some(arc) = self.sink.waits.get(&task_id) {
             arc.clone()
         } else {
             let arc = Arc::new((Mutex::new(true), Condvar::new()));
-            assert!(self.waits.insert(task_id, arc.clone()).is_none());
+            assert!(self.sink.waits.insert(task_id, arc.clone()).is_none());
             arc
         };
         // the task may have finished between the check above and the registration,
@@ -336,7 +334,7 @@ impl<'p> CoroutinePool<'p> {
         }
         if PoolState::Stopped == self.state() {
             // the pool has already cleaned up its waiters, nobody would wake us
-            _ = self.waits.remove(&task_id);
+            _ = self.sink.waits.remove(&task_id);
             return Ok(Err("The coroutine pool has stopped"));
         }
         let (lock, cvar) = &*arc;
@@ -434,17 +432,19 @@ impl<'p> CoroutinePool<'p> {
     }
 
     fn try_run(&self) -> Option<()> {
-        self.task_queue.pop().map(|task| {
+        self.task_queue.pop().map(|mut task| {
             let task_id = task.id();
+            // a stolen task belongs to another pool, its waiter is there
+            let sink = task.take_sink().unwrap_or_else(|| self.sink.clone());
             if CANCEL_TASKS.contains(&task_id) {
                 _ = CANCEL_TASKS.remove(&task_id);
                 warn!("Cancel task:{} successfully !", task_id);
                 // the task will never run, settle whoever waits for it
-                if self.no_waits.remove(&task_id).is_none() {
-                    _ = self
+                if sink.no_waits.remove(&task_id).is_none() {
+                    _ = sink
                         .results
                         .insert(task_id, Err("The task has been cancelled"));
-                    self.notify(task_id);
+                    Self::notify_sink(&sink, task_id);
                 }
                 return;
             }
@@ -453,25 +453,29 @@ impl<'p> CoroutinePool<'p> {
             }
             let (_, result) = task.run();
             _ = RUNNING_TASKS.remove(&task_id);
-            if self.no_waits.contains(&task_id) {
-                _ = self.no_waits.remove(&task_id);
+            if sink.no_waits.contains(&task_id) {
+                _ = sink.no_waits.remove(&task_id);
                 return;
             }
             assert!(
-                self.results.insert(task_id, result).is_none(),
+                sink.results.insert(task_id, result).is_none(),
                 "The previous result was not retrieved in a timely manner"
             );
-            self.notify(task_id);
+            Self::notify_sink(&sink, task_id);
         })
     }
 
-    fn notify(&self, task_id: u64) {
-        if let Some((_, arc)) = self.waits.remove(&task_id) {
+    fn notify_sink(sink: &TaskSink<'p>, task_id: u64) {
+        if let Some((_, arc)) = sink.waits.remove(&task_id) {
             let (lock, cvar) = &*arc;
             let mut pending = lock.lock().expect("notify task failed");
             *pending = false;
             cvar.notify_one();
         }
+    }
+
+    fn notify(&self, task_id: u64) {
+        Self::notify_sink(&self.sink, task_id);
     }
 
     /// Try to cancel a task.
